@@ -27,6 +27,9 @@ type Model[S any] struct {
 	// Check evaluates the oracle in the state just reached. hist/obs are the full
 	// history and its observations. It may destroy s (continuation probes).
 	Check func(s S, hist []int, obs []string, rep *Report)
+	// OnTransition, if set, is evaluated on EVERY transition (also those that lead
+	// to an already known state); it must not modify s.
+	OnTransition func(s S, hist []int, obs []string, rep *Report)
 	// Probe, if set, is a fixed observation suite run on a fresh copy of every
 	// new state and on every history that is merged into an existing key; a
 	// disagreement means the key abstraction is unsound (exit 3).
@@ -37,6 +40,12 @@ type Model[S any] struct {
 	MaxStates int
 	// Roots are the initial histories (nil = the empty history).
 	Roots [][]int
+	// Sharding: with Shard.N > 1 every worker runs the search up to ShardLevel
+	// (only shard 0 evaluates the oracle and counts there), then the distinct
+	// frontier at that depth is distributed round-robin and each worker continues
+	// from its share only. States shared by several subtrees are re-discovered.
+	Shard      Shard
+	ShardLevel int
 	// Deadline (zero = none): internal time budget; hitting it clears Exhaustive.
 	Deadline time.Time
 }
@@ -78,8 +87,13 @@ func (m *Model[S]) Run(rep *Report) XResult {
 		roots = [][]int{{}}
 	}
 	var frontier [][]int
+	sharded := m.Shard.N > 1
+	common := sharded // true while at depth <= ShardLevel: work every worker repeats
 	visit := func(hist []int) bool {
 		s, obs := m.build(hist)
+		if m.OnTransition != nil && (!common || m.Shard.I == 0) {
+			m.OnTransition(s, hist, obs, rep)
+		}
 		k := hashKey(m.Name + "\x00" + m.Key(s))
 		if e, ok := seen[k]; ok {
 			res.Merges++
@@ -92,7 +106,8 @@ func (m *Model[S]) Run(rep *Report) XResult {
 			return false
 		}
 		var e entry
-		if m.Check != nil {
+		counted := !common || m.Shard.I == 0
+		if m.Check != nil && counted {
 			m.Check(s, hist, obs, rep)
 		}
 		if m.Probe != nil {
@@ -100,8 +115,10 @@ func (m *Model[S]) Run(rep *Report) XResult {
 			e.probe = hashKey(m.Probe(s2))
 		}
 		seen[k] = e
-		res.States++
-		rep.StateHashes = append(rep.StateHashes, k[:8]...)
+		if counted {
+			res.States++
+			rep.StateHashes = append(rep.StateHashes, k[:8]...)
+		}
 		return true
 	}
 	for _, r := range roots {
@@ -114,6 +131,16 @@ func (m *Model[S]) Run(rep *Report) XResult {
 		if m.MaxDepth > 0 && depth >= m.MaxDepth {
 			res.Complete = false // bounded by depth, not a fixpoint
 			break
+		}
+		if sharded && common && depth >= m.ShardLevel {
+			common = false
+			var mine [][]int
+			for i, h := range frontier {
+				if m.Shard.Mine(i) {
+					mine = append(mine, h)
+				}
+			}
+			frontier = mine
 		}
 		var next [][]int
 		for _, hist := range frontier {
@@ -138,7 +165,9 @@ func (m *Model[S]) Run(rep *Report) XResult {
 			}
 			for _, op := range en {
 				h2 := append(append(make([]int, 0, len(hist)+1), hist...), op)
-				res.Transitions++
+				if !common || m.Shard.I == 0 {
+					res.Transitions++
+				}
 				if visit(h2) {
 					next = append(next, h2)
 					if m.MaxStates > 0 && res.States >= m.MaxStates {
@@ -192,4 +221,24 @@ func (m *Model[S]) ParseOps(v any) ([]int, error) {
 		out = append(out, idx)
 	}
 	return out, nil
+}
+
+// ReplayHistory re-executes one history without the search: OnTransition after
+// every step, Check in the final state. Returns the first violation, if any.
+func (m *Model[S]) ReplayHistory(hist []int, rep *Report) (bool, string) {
+	s := m.New()
+	var obs []string
+	for i, op := range hist {
+		obs = append(obs, m.Apply(s, op))
+		if m.OnTransition != nil {
+			m.OnTransition(s, hist[:i+1], obs, rep)
+		}
+	}
+	if m.Check != nil && len(rep.Violations) == 0 {
+		m.Check(s, hist, obs, rep)
+	}
+	if len(rep.Violations) > 0 {
+		return true, rep.Violations[0].Key + " :: " + rep.Violations[0].Detail
+	}
+	return false, fmt.Sprintf("history %v (observations %v): oracle satisfied", m.OpNames(hist), obs)
 }
